@@ -21,6 +21,7 @@ package election
 //@   requires wf_lock(r)
 //@   modifies inferred:(*resourceLock).getTso
 //@   ensures [frame] r.lastVal == old(r.lastVal) && commits == old(commits)
+//@   ensures [the-oracles-error-is-returned] err == last_tso_err
 
 // Get = getRecord; getTso: 'last read' changes only inside getRecord (proved there), getTso keeps it
 //@ func (*resourceLock).Get() (rec, err)
@@ -29,6 +30,9 @@ package election
 //@   requires wf_lock(r)
 //@   modifies inferred:(*resourceLock).Get
 //@   ensures [no-write] commits == old(commits)
+// a record is handed out only by a Get whose two steps -- reading the record, fetching the timestamp -- both
+// succeeded in this call; otherwise the candidate gets the error, never an earlier observation
+//@   ensures [no-answer-without-the-timestamp] err == nil ==> last_tso_err == nil
 
 // Create: exactly one batch [PutIfNotExist(election key, record)]; at most one candidate can
 // succeed; the candidate adopts the bytes it wrote only on success
